@@ -334,29 +334,29 @@ Section Combinators.
 
   (** fuel = depth of nested references to productions; repetitions carry their own bound (the
       length of the remaining input) *)
-  Fixpoint run (n : nat) (g : grammar) (p : parser) {struct n} : psem :=
+  Fixpoint run (n : nat) (g : grammar) (p : parser) (s : list ascii) {struct n} : result :=
     match n with
-    | O => fun _ => RFuel
+    | O => RFuel
     | S n' =>
-        (fix go (p : parser) : psem :=
+        (fix go (p : parser) (s : list ascii) {struct p} : result :=
            match p with
-           | PLit l => sem_lit (g_ws g) l
-           | PReg r => sem_reg (g_ws g) r
-           | PSeq ps => sem_seq (map go ps)
-           | PDiscardL a b => sem_discard_l (go a) (go b)
-           | PDiscardR a b => sem_discard_r (go a) (go b)
-           | PAlt ps => sem_alt (map go ps)
-           | PRep q => sem_rep (go q)
-           | PRepSep q sep => sem_repsep (go q) (go sep)
-           | PRep1Sep q sep => sem_rep1sep (go q) (go sep)
-           | PMap q f => sem_map (go q) f
-           | PBind q f => sem_bind (go q) f
+           | PLit l => sem_lit (g_ws g) l s
+           | PReg r => sem_reg (g_ws g) r s
+           | PSeq ps => sem_seq (map go ps) s
+           | PDiscardL a b => sem_discard_l (go a) (go b) s
+           | PDiscardR a b => sem_discard_r (go a) (go b) s
+           | PAlt ps => sem_alt (map go ps) s
+           | PRep q => sem_rep (go q) s
+           | PRepSep q sep => sem_repsep (go q) (go sep) s
+           | PRep1Sep q sep => sem_rep1sep (go q) (go sep) s
+           | PMap q f => sem_map (go q) f s
+           | PBind q f => sem_bind (go q) f s
            | PRef x =>
                match lookup x (g_prods g) with
-               | Some q => run n' g q
-               | None => fun _ => RStuck
+               | Some q => run n' g q s
+               | None => RStuck
                end
-           end) p
+           end) p s
     end.
 
   (** p.parse(s): [(p << eof).consume] *)
